@@ -46,8 +46,51 @@ class Cli:
 
     def run(self, args, timeout=300, stdin=None):
         env = dict(os.environ, PYTHONPATH=O.SRC, PYTHONHASHSEED="0", PYTHONIOENCODING="utf-8")
+        if isinstance(stdin, (list, tuple)):
+            return self._run_pieces(args, timeout, stdin, env)
         p = subprocess.run([sys.executable, "-m", "tpmstream"] + args, capture_output=True, timeout=timeout, env=env, cwd=self.dir, input=stdin)
         return p.returncode, p.stdout.decode("utf-8", "replace"), p.stderr.decode("utf-8", "replace")
+
+    def _run_pieces(self, args, timeout, pieces, env):
+        """Standard input arriving in pieces (a pipe from a live source): each piece is written only after the tool has
+        taken the one before out of the pipe (or after two seconds), so the reader sees short reads.  The outcome on a
+        correct tool does not depend on the timing."""
+        import fcntl
+        import struct
+        import termios
+        import threading
+        import time
+
+        p = subprocess.Popen([sys.executable, "-m", "tpmstream"] + args, stdin=subprocess.PIPE, stdout=subprocess.PIPE, stderr=subprocess.PIPE, env=env, cwd=self.dir)
+        outs = {}
+        readers = [threading.Thread(target=lambda k=k, f=f: outs.__setitem__(k, f.read()), daemon=True) for k, f in (("out", p.stdout), ("err", p.stderr))]
+        for t in readers:
+            t.start()
+        try:
+            for piece in pieces:
+                try:
+                    p.stdin.write(piece)
+                    p.stdin.flush()
+                except BrokenPipeError:
+                    break
+                deadline = time.monotonic() + 2.0
+                while time.monotonic() < deadline and p.poll() is None:
+                    pending = struct.unpack("i", fcntl.ioctl(p.stdin.fileno(), termios.FIONREAD, b"\0\0\0\0"))[0]
+                    if pending == 0:
+                        time.sleep(0.05)
+                        break
+                    time.sleep(0.01)
+            try:
+                p.stdin.close()
+            except BrokenPipeError:
+                pass
+            code = p.wait(timeout=timeout)
+        finally:
+            if p.poll() is None:
+                p.kill()
+        for t in readers:
+            t.join(timeout=30)
+        return code, (outs.get("out") or b"").decode("utf-8", "replace"), (outs.get("err") or b"").decode("utf-8", "replace")
 
 
 def lib_convert(format_in, format_out, tname, data, cc):
@@ -105,7 +148,7 @@ def convert_case(ctx, L, cli, ex):
     else:
         content = carried
     # how the bytes reach the tool: one file, two files (the tool concatenates its inputs), or standard input ("-")
-    delivery = data.draw(st.sampled_from(["file", "file", "two-files", "stdin"]))
+    delivery = data.draw(st.sampled_from(["file", "file", "two-files", "stdin", "stdin-in-pieces"]))
     verb = data.draw(st.sampled_from(["convert", "convert", "co"]))
     stdin = None
     if delivery == "two-files" and len(content) >= 2:
@@ -114,6 +157,10 @@ def convert_case(ctx, L, cli, ex):
     elif delivery == "stdin":
         args = [verb, "-"]
         stdin = content
+    elif delivery == "stdin-in-pieces" and len(content) >= 2:
+        cut = data.draw(st.integers(1, len(content) - 1))
+        args = [verb, "-"]
+        stdin = [content[:cut], content[cut:]]
     else:
         args = [verb, cli.file(content)]
     n_files = len(args) - 1
@@ -338,6 +385,36 @@ def pty_case(ctx, L, cli, case, columns):
         ctx.problem("C19:convert:terminal", f"on a {columns}-column terminal output line {d} is {a[d] if d < len(a) else None!r}, the library produces {b2[d] if d < len(b2) else None!r}", payload)
 
 
+def special_files(L):
+    """(type, bytes): well-formed binary inputs whose last or first bytes are ones a text-minded reader might strip or
+    stop at (line ends, blanks, NUL, Ctrl-Z, 0xFF), as payload of a plain byte buffer."""
+    out = []
+    for payload in (b"\n", b"A\r\n", b"\r", b"  ", b"\t", b"\x00", b"\x00\x00\x00\x00", b"\x1a", b"\xff", b"\n\n\n\n", b"0a", b" 41 "):
+        out.append(("TPM2B_MAX_BUFFER", len(payload).to_bytes(2, "big") + payload))
+    out.append(("UINT16", b"\x0d\x0a"))
+    out.append(("UINT32", b"\x20\x20\x20\x0a"))
+    return out
+
+
+def special_file_case(ctx, L, cli, tname, content, fmt_out):
+    args = ["convert", cli.file(content), "--in", "binary", "--out", fmt_out, "--type", tname]
+    judge_convert(ctx, L, cli, args, "binary", fmt_out, tname, content, None, True)
+
+
+def long_output_case(ctx, L, cli):
+    """One `convert` call that prints more than 12 000 lines (three exchanges with 4096 random bytes each)."""
+    b = gen.Builder(L, gen.FixedChooser(), big=False, rare=False)
+    toks, meta = b.command("GetRandom", 1, want_decrypt=False, want_encrypt=False)
+    cmd = gen.Case("Command", toks, L, meta=meta).data
+    rsp = gen.huge_messages(L)[0].data
+    content = (cmd + rsp) * 3
+    ctx.count("long-output-runs")
+    for fmt_out in ("events", "pretty"):
+        args = ["convert", cli.file(content), "--in", "binary", "--out", fmt_out]
+        if not judge_convert(ctx, L, cli, args, "binary", fmt_out, "CommandResponseStream", content, None, True):
+            return
+
+
 def example_case(ctx, L, cli, name):
     from tpmstream.io.pretty import Pretty
 
@@ -415,6 +492,12 @@ def run_shard(ctx):
             def __init__(self, data):
                 self.data = data
 
+        for k, (tname, content) in enumerate(special_files(L)):
+            if k % ctx.nshards == ctx.shard:
+                for fmt_out in ("binary", "pretty") if q else ("binary", "pretty", "events"):
+                    ctx.run_plain(lambda tname=tname, content=content, fmt_out=fmt_out: special_file_case(ctx, L, cli, tname, content, fmt_out), "special-bytes")
+        if ctx.shard == 14:
+            ctx.run_plain(lambda: long_output_case(ctx, L, cli), "long-output")
         amb = ambiguous_files(L)
         for k, data in enumerate(amb):
             if k % ctx.nshards == ctx.shard and (not q or (k + ctx.seed) % 2 == 0 or len(data) == 10):
